@@ -12,7 +12,7 @@ ASSUMPTIONS = ["grouped labels are compared for member axes of one kind; with mi
 
 FLOORS = {"op=flatten": (100, 100), "op=reshape": (50, 50), "subset=contiguous": (30, 30), "subset=noncontiguous": (5, 5),
           "subset=reordered": (20, 20), "subset=all": (10, 10), "form=set": (10, 10), "form=list": (30, 30), "insert=given": (50, 50),
-          "reshape=regroup": (20, 20), "reshape=add": (20, 20), "reshape=drop": (0, 5), "two-groups": (20, 20)}
+          "reshape=regroup": (20, 20), "reshape=add": (20, 20), "reshape=drop": (0, 5), "two-groups": (100, 100), "tuple-ops": (50, 50)}
 
 KINDMAPS = [("i", {"x": "i", "y": "i", "z": "i", "w": "i", "r": "i", "s": "i"}), ("s", {"x": "s", "y": "s", "z": "s", "w": "s", "r": "s", "s": "s"}),
             ("mixed", {"x": "i", "y": "s", "z": "f", "w": "i", "r": "s", "s": "f"})]
@@ -43,6 +43,8 @@ def classify(scn):
         out += ["subset=" + _subset_class(i), "form=" + i["form"]]
         if i["insert"]:
             out.append("insert=given")
+        elif len(i["S"]) >= 2 and i["form"] != "set":
+            out.append("tuple-ops")
     else:
         g = i["groups"]
         if any(len(x) > 1 for x in g):
@@ -185,6 +187,80 @@ def replay(scn):
                         what = "unflatten(result): " + w
                 except Exception as e:  # noqa
                     what = "unflatten(result) raised %s: %s" % (type(e).__name__, str(e)[:200])
+            if what is None and i["op"] == "flatten":
+                # the value at a grouped position equals the original value at that combination of labels: read the grouped
+                # axis by position (list, slice, mask) and compare with the expected array sampled at those positions
+                e = exp["r"]
+                g = [k for k, kd in enumerate(e["kinds"]) if kd == "t"][0]
+                n = len(e["labs"][g])
+                ecells = np.array(e["cells"], dtype=object).reshape([len(l) for l in e["labs"]])
+                for sel, pos in (("list", [n - 1, 0]), ("slice", list(range(1, n))), ("mask", [k for k in range(n) if k % 2 == 0])):
+                    calls += 1
+                    ix = pos if sel == "list" else (slice(1, None) if sel == "slice" else np.array([k % 2 == 0 for k in range(n)]))
+                    try:
+                        sub = res.take(ix, axis=e["dims"][g], indexing="position")
+                        want_cells = np.take(ecells, pos, axis=g).ravel().tolist()
+                        got_cells = [A.cell_dec(x) for x in sub.values.ravel().tolist()]
+                        got_labs = [list(t) if isinstance(t, tuple) else [t] for t in sub.axes[g].values.tolist()]
+                        want_labs = [e["labs"][g][k] for k in pos]
+                        # (member axes of different kinds: NumPy stores the sampled tuples as strings; only the cells are compared)
+                        dec = [[codec.dec(x)[0] for x in t] for t in got_labs] if kname != "mixed" else want_labs
+                        if got_cells != want_cells:
+                            what = "grouped axis read by position %s: cells expected %s got %s" % (sel, want_cells[:8], got_cells[:8])
+                        elif dec != want_labs:
+                            what = "grouped axis read by position %s: grouped labels expected %s got %s" % (sel, want_labs[:6], dec[:6])
+                    except Exception as ex:  # noqa
+                        what = "grouped axis read by position %s raised %s: %s" % (sel, type(ex).__name__, str(ex)[:200])
+                    if what:
+                        variant += " read=" + sel
+                        break
+            if what is None and i["op"] == "flatten" and len(i["S"]) >= 2 and i["form"] != "set" and not i["insert"]:
+                # "reducing over a tuple of dimensions equals reducing over the flattened group" - also for the operations that
+                # depend on the order inside the group (arg-extrema, cumulative sums, differences)
+                arg = _dims_arg(i, a, i["form"], byname)
+                flat = a.flatten(arg, insert=0)
+                for opname in TUPLE_OPS:
+                    calls += 1
+                    r1 = _try(lambda: getattr(a, opname)(axis=arg))
+                    r2 = _try(lambda: getattr(flat, opname)(axis=0))
+                    w = _same_any(r1, r2)
+                    if w:
+                        what = "%s(axis=%r) differs from %s on the flattened group: %s" % (opname, arg, opname, w)
+                        variant += " op=" + opname
+                        break
             if what:
                 viol.append(dict(what=what, sig=signature(scn, "kinds=%s" % kname), variant=variant))
     return dict(violations=viol, calls=calls)
+
+
+TUPLE_OPS = ["sum", "mean", "max", "argmax", "argmin", "cumsum", "cumprod", "diff"]
+
+
+def _try(f):
+    old = np.seterr(all="ignore")
+    try:
+        return f()
+    except Exception as e:  # noqa
+        return ("raised", type(e).__name__)
+    finally:
+        np.seterr(**old)
+
+
+def _same_any(x, y):
+    if isinstance(x, tuple) and x[:1] == ("raised",) or isinstance(y, tuple) and y[:1] == ("raised",):
+        return "" if x == y else "%r vs %r" % (x, y)
+    if isinstance(x, A.DimArray) != isinstance(y, A.DimArray):
+        return "%s vs %s" % (type(x).__name__, type(y).__name__)
+    if not isinstance(x, A.DimArray):
+        return "" if (x == y or (x != x and y != y)) else "%r vs %r" % (x, y)
+    if x.dims != y.dims:
+        return "dims %s vs %s" % (x.dims, y.dims)
+    for ax, bx in zip(x.axes, y.axes):
+        if ax.values.tolist() != bx.values.tolist():
+            return "labels of %s: %s vs %s" % (ax.name, ax.values.tolist()[:6], bx.values.tolist()[:6])
+    u, v = x.values.ravel().tolist(), y.values.ravel().tolist()
+    if len(u) != len(v) or any(not (p == q or (p != p and q != q)) for p, q in zip(u, v)):
+        return "values %s vs %s" % (u[:8], v[:8])
+    if dict(x.attrs) != dict(y.attrs):
+        return "attrs %r vs %r" % (dict(x.attrs), dict(y.attrs))
+    return ""
